@@ -121,6 +121,7 @@ def _setup():
         return ""
 
     engines["django"].engine.template_builtins.append(lib)
+    boot.LOCMEM_TEMPLATES["c02inc.html"] = "INC"  # target of the nested `{% include %}` atoms
     _STATE.update(rec=rec, ref=g.Reference(), n=0)
     return _STATE
 
